@@ -57,8 +57,10 @@ def main():
             confirm_only = True
         i += 1
     meta = json.load(open(os.path.join(seed, "meta.json")))
+    meta.setdefault("property", meta.get("breaks_property"))
     props = props or [meta["property"]]
     patch = os.path.join(seed, "patch.diff")
+    meta.setdefault("property", meta.get("breaks_property"))
     res = {"seed": os.path.basename(seed), "property": meta["property"], "time": time.strftime("%Y-%m-%d %H:%M:%S")}
     rc, _ = sh(["git", "status", "--porcelain"], cwd=REPO)
     rc, out = sh(["git", "diff", "--quiet"], cwd=REPO)
